@@ -90,7 +90,7 @@ func (k msgServer) SubmitValidityProof(ctx context.Context, msg *types.MsgSubmit
 			return nil, err
 		}
 
-		if len(publishedData.ShardDoubleHashes) <= int(j) {
+		if j < 0 || int64(len(publishedData.ShardDoubleHashes)) <= j {
 			return nil, types.ErrProofIndicesOverflow
 		}
 
